@@ -100,6 +100,31 @@ Fixpoint strip_ids (drop : Z -> bool) (v : value) : value :=
 Definition strip_obs : value -> value := strip_ids (fun i => (i =? unk_id) || (i =? isset_id)).
 Definition strip_unk : value -> value := strip_ids (fun i => i =? unk_id).
 
+(* no two keys of a map in v fall together when written (enum keys beyond int32 are truncated): when they
+   do, which entry survives depends on the writer's Go map iteration order, so an oracle that predicts
+   the reader's value from the SOURCE value would be wrong (the hop correspondence reads the observed
+   bytes and is not affected) *)
+Fixpoint keys_distinct (e : env) (t : ty) (v : value) {struct v} : bool :=
+  match v with
+  | VList l => match t with TList a | TSet a => forallb (keys_distinct e a) l | _ => true end
+  | VMap kvs =>
+      match t with
+      | TMap a b => forallb (fun kv => keys_distinct e a (fst kv) && keys_distinct e b (snd kv)) kvs &&
+                    negb (has_dup go_key_eq (map (fun kv => norm e a (fst kv)) kvs))
+      | _ => true end
+  | VStruct fs =>
+      match t with
+      | TRef n =>
+        match find_struct e n with
+        | Some s => forallb (fun p => match find_field (fst p) (s_fields s) with
+                                      | Some f => keys_distinct e (f_ty f) (snd p)
+                                      | None => true end) fs
+        | None => true end
+      | _ => true end
+  | VSome x => keys_distinct e t x
+  | _ => true
+  end.
+
 Fixpoint decode_all (inputs : list bytes) : option (list wval) :=
   match inputs with
   | [] => Some []
@@ -214,7 +239,7 @@ Definition check (eo en : env) (c : case) : list N :=
           match werr with
           | OOk =>
               chain_checks eo en sname wbytes hops ++
-              (if wt e0 s0 v then
+              (if wt e0 s0 v && keys_distinct e0 (TRef sname) v then
                  match start, hops with
                  | SNew, h1 :: _ =>
                      (match h_side h1 with
